@@ -304,6 +304,8 @@ class PackageMachine:
             ops = [o for o in ops if not (o[0] == "save_xml" and getattr(st, "deleted", False))]
             if st.own_path:
                 ops.append(("save", "inplace"))
+            if st.last_kind == "bytesio" and isinstance(st.last_target, io.BytesIO):
+                ops.append(("save", "bytesio-again"))  # the buffer of the previous save is used again
         elif alphabet == "c04":
             ops += [("add_file", "path"), ("add_file", "io"), ("add_file", "io2"), ("del_part_bin",), ("del_part_added",), ("image_frame",), ("merge_styles",), ("merge_styles", "example.odp"), ("merge_styles", "background.odp"), ("clone",), ("edit_body",), ("touch", "manifest")]
             ops += [("save", "zip"), ("save", "bytesio")]
@@ -498,6 +500,10 @@ class PackageMachine:
         elif kind == "zip":
             target = base + ".odx"
             st.doc.save(target, pretty=False)
+        elif kind == "bytesio-again":
+            target = st.last_target
+            st.doc.save(target, pretty=False)
+            kind = "bytesio"
         elif kind == "bytesio":
             target = io.BytesIO()
             st.doc.save(target, pretty=False)
@@ -580,7 +586,11 @@ class PackageMachine:
                 if missing:
                     fail("flat-xml-content", f"{len(want)} paragraphs", f"{len(missing)} missing, e.g. {sorted(missing)[0][:120]!r}", "flat-xml-loses-content")
             return fails
-        entries = self.read_saved(st)
+        try:
+            entries = self.read_saved(st)
+        except Exception as e:
+            fail("saved-package-readable", "a readable package", f"{type(e).__name__}: {e}"[:150], f"saved-package-unreadable:{type(e).__name__}")
+            return fails
         names = [n for n, _, _ in entries]
         if prop == "C03":
             m = st.model
